@@ -132,6 +132,7 @@ class SolvePDE(Ob):
     props = ('C04', 'C12')
     pattern = None
     dirty = False
+    claimed_scale = 2.0       # the factor of the scaled term in the claimed row identity (a canary claims 1.0)
 
     def parts(self, w):
         return ['rows', 'result']
@@ -189,7 +190,7 @@ class SolvePDE(Ob):
             z = S['z']
             want = (w.apply(S['Mbc'], psi, P) - w.vec(S['RHSbc'], P)
                     + w.apply(S['Mt'], psi, P) - w.vec(S['Rt'], P)
-                    - w.apply(z['Md'], psi, P) + w.apply(z['Mu'], psi, P) + 2.0 * w.apply(z['Ms'], psi, P)
+                    - w.apply(z['Md'], psi, P) + w.apply(z['Mu'], psi, P) + self.claimed_scale * w.apply(z['Ms'], psi, P)
                     - w.vec(z['Rg'], P) + w.vec(z['Rg'], P))
             out.append(('system_row_is_bc_plus_terms', w.eq(lhs, want)))
             return out
